@@ -44,10 +44,11 @@ def run_text_tool(ctx, tool, opts, inputs):
                     stdin = i["text"].encode("utf-8")
                     seen_stdin = True
             else:
-                p = os.path.join(d, f"in{k}.lst")
+                nm = i.get("path") or f"in{k}.lst"   # the same path may be given several times: it is read each time
+                p = os.path.join(d, nm)
                 with open(p, "wb") as f:
                     f.write(i["text"].encode("utf-8"))
-                argv.append(f"in{k}.lst")
+                argv.append(nm)
         r = ctx.impl.call({"kind": "cli", "tool": tool, "argv": argv, "stdin_b64": base64.b64encode(stdin).decode(), "cwd": d})
         out = base64.b64decode(r.get("stdout_b64", "")).decode("utf-8", "surrogateescape")
         return r, out
@@ -74,3 +75,14 @@ def out_lines(out):
     if ls and ls[-1] == "":
         ls.pop()
     return ls
+
+
+def repeat_a_source(rng, inputs):
+    """give one of the file inputs a second (third) time on the command line, under the very same path"""
+    files = [k for k, i in enumerate(inputs) if not i["stdin"]]
+    if not files:
+        return
+    j = rng.choice(files)
+    inputs[j]["path"] = "again%d.lst" % j
+    for _ in range(rng.choice([1, 1, 2])):
+        inputs.insert(rng.randint(j + 1, len(inputs)), dict(inputs[j]))
